@@ -664,6 +664,16 @@ func (f *fnTrans) env(b *ssa.BasicBlock, st *State, extra map[string]TV) *Env {
 		}
 	}
 	e.lookup = f.lookupAt(b, st, extra)
+	// old(...) may name captured variables: their content on entry
+	entryLook := f.lookupAt(f.fn.Blocks[0], f.entry, nil)
+	e.oldLookup = func(n string) (TV, bool) {
+		for _, fv := range f.fn.FreeVars {
+			if fv.Name() == n {
+				return entryLook(n)
+			}
+		}
+		return TV{}, false
+	}
 	return e
 }
 
